@@ -317,9 +317,10 @@ Section Inv.
   Lemma iteration_invariants_newton it s res ev :
     iteration cfg orc kappa0 it s = (res, ev) -> newton_only cfg = true -> exists s', res = inl s'.
   Proof.
-    unfold iteration. intros H HN. rewrite HN in H.
-    destruct (if _ then _ else _) as [[[[x1 lam1] err1] upd] ev1] in H.
-    inversion H; subst. eexists; reflexivity.
+    unfold iteration. intros H HN.
+    set (second := orb (andb (use_second_order cfg) (Nat.leb (n_low_order cfg) it)) (newton_only cfg)) in H.
+    destruct (if second then _ else _) as [[[[x1 lam1] err1] upd] ev1] in H.
+    rewrite HN in H. inversion H; subst. eexists; reflexivity.
   Qed.
 
   (* the whole loop: every event satisfies the multiplier invariant; kappa never decreases from the start;
@@ -417,3 +418,170 @@ Section Inv.
     eapply IH; eassumption.
   Qed.
 End Inv.
+
+(* ------------------------------------------------------------------ C. termination test => approximate KKT *)
+Definition SS (v : list R) : R := @nsum R NumR (map (fun a => nmul a a) v).
+Lemma SS_nil : SS [] = 0.
+Proof. unfold SS. cbn [map nsum]. unfold_num. q2r. reflexivity. Qed.
+Lemma SS_cons a v : SS (a :: v) = a * a + SS v.
+Proof. unfold SS. cbn [map nsum]. unfold_num. reflexivity. Qed.
+Lemma SS_nonneg v : 0 <= SS v.
+Proof. induction v; [rewrite SS_nil; lra | rewrite SS_cons; nra]. Qed.
+Lemma SS_app a b : SS (a ++ b) = SS a + SS b.
+Proof. induction a as [|x a IH]; cbn [app]; [rewrite SS_nil; lra | rewrite !SS_cons, IH; lra]. Qed.
+Lemma norm2_SS v : @norm2 R NumR v = sqrt (SS v).
+Proof. reflexivity. Qed.
+
+Lemma norm2_components v t : @norm2 R NumR v < t -> List.Forall (fun a => Rabs a < t) v.
+Proof.
+  rewrite norm2_SS. induction v as [|a v IH]; intros H; constructor.
+  - rewrite SS_cons in H. pose proof (SS_nonneg v).
+    assert (sqrt (a * a) <= sqrt (a * a + SS v)) by (apply sqrt_le_1_alt; lra).
+    replace (a * a) with (Rsqr a) in H1 at 1 by reflexivity. rewrite sqrt_Rsqr_abs in H1. lra.
+  - apply IH. rewrite SS_cons in H.
+    assert (sqrt (SS v) <= sqrt (a * a + SS v)) by (apply sqrt_le_1_alt; nra). lra.
+Qed.
+
+Lemma norm2_app g n t : @norm2 R NumR (g ++ n) < t -> @norm2 R NumR g < t /\ @norm2 R NumR n < t.
+Proof.
+  rewrite !norm2_SS, SS_app. pose proof (SS_nonneg g). pose proof (SS_nonneg n). intros Ht.
+  assert (sqrt (SS g) <= sqrt (SS g + SS n)) by (apply sqrt_le_1_alt; lra).
+  assert (sqrt (SS n) <= sqrt (SS g + SS n)) by (apply sqrt_le_1_alt; lra). lra.
+Qed.
+
+Definition triple (a b c : R) : R * R * R := (a, b, c).
+(* per constraint (c_i, lam_i, kappa0_i): scaled feasibility, multiplier sign up to t, complementarity in the min form *)
+Definition kkt_row (t : R) (r : R * R * R) : Prop :=
+  let '(c, l, k) := r in - t < c * k /\ - t < l /\ Rmin (c * k) l <= t / (2 - sqrt 2).
+
+Lemma fb_rows c lam k0 t :
+  List.Forall (fun a => Rabs a < t) (@ncp_of R NumR c lam k0) -> List.Forall (kkt_row t) (zip3 triple c lam k0).
+Proof.
+  unfold ncp_of. revert lam k0. induction c as [|ci c IH]; intros [|li lam] [|ki k0]; cbn [zip3]; try (constructor; fail).
+  intros H. inversion H as [|a l Ha Hl]; subst. constructor; [|apply IH; exact Hl].
+  change (Rabs (FB ci li ki) < t) in Ha. unfold kkt_row, triple.
+  destruct (fb_small_implies_complementarity ci li ki (Rabs (FB ci li ki)) (Rle_refl _)) as (H1 & H2 & H3).
+  destruct two_minus_sqrt2_pos as [Hp _].
+  split; [lra|]. split; [lra|].
+  eapply Rle_trans; [exact H3|]. unfold Rdiv. apply Rmult_le_compat_r; [left; apply Rinv_0_lt_compat; exact Hp | lra].
+Qed.
+
+Theorem termination_test_implies_KKT g c lam k0 t :
+  @norm2 R NumR (g ++ @ncp_of R NumR c lam k0) < t ->
+  @norm2 R NumR g < t /\ List.Forall (kkt_row t) (zip3 triple c lam k0).
+Proof.
+  intros H. destruct (norm2_app _ _ _ H) as [Hg Hn]. split; [exact Hg|].
+  apply fb_rows. apply norm2_components. exact Hn.
+Qed.
+
+(* every normal return of the solve: multipliers >= 0 exactly, and the returned (x, lam, kappa) passes the test, hence KKT rows *)
+Theorem al_solve_return_is_KKT (cfg : @settings R) (orc : @oracles R) kappa0 x0 lam0 kap0 x lam kappa ev :
+  al_solve cfg orc kappa0 x0 lam0 kap0 = (Returned x lam kappa, ev) ->
+  newton_only cfg = false
+  /\ nonneg lam
+  /\ (1 <= penalty_scaling cfg -> nonneg kap0 -> le_vec kap0 kappa)
+  /\ exists it, (it < max_al_iters cfg)%nat
+       /\ @norm2 R NumR (gradAL orc it Sub x lam kappa) < tol cfg
+       /\ List.Forall (kkt_row (tol cfg)) (zip3 triple (constraint orc it Sub x) lam kappa0).
+Proof.
+  unfold al_solve. intros H.
+  destruct (newton_only cfg) eqn:EN.
+  - exfalso. exact (newton_only_never_returns cfg orc kappa0 _ _ _ _ _ EN H).
+  - destruct (loop_invariants cfg orc kappa0 _ _ _ _ _ H EN (or_introl eq_refl)) as (_ & K & L & it & Hit & Ht).
+    split; [reflexivity|]. split; [exact L|]. split.
+    + intros Hs Hk. destruct (K Hs Hk) as [K1 _]. exact K1.
+    + exists it. split; [lia|]. unfold resid, total_residual in Ht.
+      apply termination_test_implies_KKT in Ht. exact Ht.
+Qed.
+
+(* ------------------------------------------------------------------ D. exact KKT + convexity => global constrained minimiser *)
+Section Convex.
+  Variable V : Type.
+  Variable f : V -> R.
+  Variable df : V -> V -> R.                       (* df x y stands for <grad f(x), y - x> *)
+  Variable x : V.
+  (* constraints c_i >= 0, each with its multiplier and first-order pairing dc_i x y = <grad c_i(x), y - x> *)
+  Definition conlist : Type := list (R * (V -> R) * (V -> V -> R)).
+
+  Fixpoint lagr_pairing (l : conlist) (y : V) : R :=
+    match l with [] => 0 | (lam, _, dc) :: r => lam * dc x y + lagr_pairing r y end.
+
+  Definition kkt_rows_exact (cons : conlist) : Prop :=                            (* sign, feasibility, complementarity *)
+    List.Forall (fun '(lam, c, _) => 0 <= lam /\ 0 <= c x /\ lam * c x = 0) cons.
+  Definition kkt_exact (cons : conlist) : Prop :=
+    (forall y, df x y = lagr_pairing cons y) /\ kkt_rows_exact cons.             (* stationarity in weak form *)
+  Definition concave_cons (cons : conlist) : Prop :=
+    List.Forall (fun '(_, c, dc) => forall y, c y <= c x + dc x y) cons.
+  Definition feasible (cons : conlist) (y : V) : Prop := List.Forall (fun '(_, c, _) => 0 <= c y) cons.
+
+  Lemma pairing_nonneg cons y : kkt_rows_exact cons -> concave_cons cons -> feasible cons y -> 0 <= lagr_pairing cons y.
+  Proof.
+    induction cons as [|[[lam c] dc] r IH]; intros HK HC HF; cbn [lagr_pairing]; [lra|].
+    inversion HK as [|? ? H123 HK']; inversion HC as [|? ? H4 HC']; inversion HF as [|? ? H5 HF']; subst.
+    cbn beta iota in H123, H4, H5. destruct H123 as (H1 & H2 & H3).
+    specialize (IH HK' HC' HF'). specialize (H4 y).
+    assert (lam * (c y - c x) <= lam * dc x y) by (apply Rmult_le_compat_l; lra). nra.
+  Qed.
+
+  Theorem convex_KKT_is_min cons : (forall y, f x + df x y <= f y) -> kkt_exact cons -> concave_cons cons ->
+    feasible cons x /\ forall y, feasible cons y -> f x <= f y.
+  Proof.
+    intros Hf [HS HK] HC. split.
+    - unfold feasible. eapply Forall_impl; [|exact HK]. intros [[lam c] dc]. tauto.
+    - intros y Hy. pose proof (pairing_nonneg cons y HK HC Hy). specialize (Hf y). rewrite HS in Hf. lra.
+  Qed.
+
+  Theorem strictly_convex_KKT_is_unique_min cons (neq : V -> V -> Prop) :
+    (forall y, neq y x -> f x + df x y < f y) -> kkt_exact cons -> concave_cons cons ->
+    forall y, feasible cons y -> neq y x -> f x < f y.
+  Proof.
+    intros Hf [HS HK] HC y Hy Hn. pose proof (pairing_nonneg cons y HK HC Hy).
+    specialize (Hf y Hn). rewrite HS in Hf. lra.
+  Qed.
+End Convex.
+
+(* ------------------------------------------------------------------ E. NewtonSolver.compute_min_p *)
+Theorem compute_min_p_in_bounds p0 p1 p2 b0 b1 : b0 <= b1 -> b0 <= @compute_min_p R NumR p0 p1 p2 b0 b1 <= b1.
+Proof. intros H. unfold compute_min_p. unfold_num. q2r. rcases; lra. Qed.
+
+Theorem compute_min_p_minimises p0 p1 p2 b0 b1 : b0 <= b1 -> 0 < p1 - p0 - p2 ->
+  let q := fun s => (p1 - p0 - p2) * s * s + p2 * s + p0 in
+  forall s, b0 <= s <= b1 -> q (@compute_min_p R NumR p0 p1 p2 b0 b1) <= q s.
+Proof.
+  intros H Ha q s Hs. unfold q, compute_min_p. unfold_num. q2r. set (a := p1 - p0 - p2) in *.
+  assert (Hm : 2 * a * (- p2 / (2 * a)) = - p2) by (field; lra). set (m := - p2 / (2 * a)) in *.
+  assert (Hq : forall r, (a * s * s + p2 * s + p0) - (a * r * r + p2 * r + p0) = (s - r) * (a * (s - m) + a * (r - m))).
+  { intros r. replace p2 with (- (2 * a * m)) by lra. ring. }
+  rcases; try lra.
+  all: match goal with |- _ * ?r * ?r + _ + _ <= _ => pose proof (Hq r) as Hr end.
+  all: clearbody a m; clear q.
+  all: first
+    [ (* clamp at b0 > m *)
+      assert (0 <= (s - b0) * (a * (s - m) + a * (b0 - m)))
+        by (apply Rmult_le_pos; [lra|]; apply Rplus_le_le_0_compat; apply Rmult_le_pos; lra); lra
+    | (* clamp at b1 < m *)
+      assert (0 <= (b1 - s) * (a * (m - s) + a * (m - b1)))
+        by (apply Rmult_le_pos; [lra|]; apply Rplus_le_le_0_compat; apply Rmult_le_pos; lra); lra
+    | (* interior *)
+      assert (0 <= a * ((s - m) * (s - m))) by (apply Rmult_le_pos; [lra | apply Rle_0_sqr]); lra ].
+Qed.
+
+(* ------------------------------------------------------------------ non-vacuity witnesses *)
+Example C04_nonvacuous_fb : Rabs (FB 0 3 2) <= 0 /\ FB 1 0 5 = 0.
+Proof.
+  split.
+  - rewrite (proj2 (fb_zero_iff 0 3 2)); [rewrite Rabs_R0; lra | lra].
+  - apply fb_zero_iff. lra.
+Qed.
+
+(* min x^2 s.t. x - 1 >= 0: x* = 1, lam = 2 *)
+Example C04_nonvacuous_convex :
+  let cons := [(2, (fun x : R => x - 1), (fun x y : R => y - x))] in
+  kkt_exact R (fun x y => 2 * x * (y - x)) 1 cons /\ concave_cons R 1 cons /\ (forall y, 1 * 1 + 2 * 1 * (y - 1) <= y * y).
+Proof.
+  cbv zeta. split; [split|split].
+  - intros y. cbn [lagr_pairing]. lra.
+  - constructor; [cbn beta iota; repeat split; lra|constructor].
+  - constructor; [cbn beta iota; intros y; lra|constructor].
+  - intros y. pose proof (Rle_0_sqr (y - 1)) as Hq. unfold Rsqr in Hq. lra.
+Qed.
